@@ -159,6 +159,7 @@ RuleVal(r, args, inst, oname, ci, couts, fc) ==
       [] r.k = "fdlink2" -> VFile(inst, oname \o ".rdl2", fc)     \* the same through a second link inside the files directory
       [] r.k = "fsm" -> VObj(("label" :> VStr("x")) @@ ("m" :> VObj("k" :> VInt(1))) @@ ("f" :> VFile(inst, oname \o "_f", fc)))
       [] r.k = "dir"   -> VFile(inst, oname \o ".d", fc)      \* a directory holding two files
+      [] r.k = "finside" -> VFile(inst, oname \o ".ind", fc)      \* the file a.dat inside the directory that is the stage's output d
       [] r.k = "fso" -> VObj(("f" :> VFile(inst, oname \o "_f", fc)) @@ ("o" :> VFile(inst, oname \o "_o.outside", fc)))   \* a struct {file f; file o}: o written outside the pipestance
       [] r.k = "fstruct" -> VObj(("f" :> VFile(inst, oname \o "_f", fc)) @@ ("n" :> VInt(7)))
       [] r.k = "echo"  -> args[r.src]
